@@ -242,9 +242,25 @@ fn domain(l: Layout, tier: Tier, c11: bool) -> Domain {
             let b = alpha::boundary(l, btier);
             let mut un = alpha::boundary(l, tier);
             let seen: std::collections::HashSet<u128> = un.iter().cloned().collect();
+            let mut seen = seen;
             for x in alpha::float_runs(l, tier) {
-                if !seen.contains(&x) {
+                if seen.insert(x) {
                     un.push(x);
+                }
+            }
+            // rounding ties at every integer part of the alphabet: the value with its fractional field forced to
+            // exactly one half, and one unit either side (parity of arbitrary, also very large, integer parts)
+            if l.frac >= 1 && l.frac < l.w {
+                let m = vcore::lay::mask(l.w);
+                let fmask = (1u128 << l.frac) - 1;
+                let half = 1u128 << (l.frac - 1);
+                for &v in &alpha::boundary(l, tier) {
+                    let t = (v & !fmask & m) | half;
+                    for x in [t, t.wrapping_add(1) & m, t.wrapping_sub(1) & m] {
+                        if seen.insert(x) {
+                            un.push(x);
+                        }
+                    }
                 }
             }
             let rel = related_pairs(l, &b);
